@@ -173,6 +173,94 @@ def classify(case):
     return labels, nt
 
 
+# ------------------------------------------------------------------------------------ end points exactly at zero
+@st.composite
+def strat_zero(draw, tier):
+    d = draw(st.sampled_from([2, 2, 3]))
+    margins = [draw(chain_model_spec(exp=False)) for _ in range(d)]
+    cop = draw(copula_spec())
+    sc = [model_scale(m) for m in margins]
+    axis = draw(st.integers(0, d - 1))
+    side = draw(st.sampled_from(["neg0", "pos0", "split0"]))
+    a, b, kinds = [], [], []
+    straddle_used = False
+    for k in range(d):
+        x = draw(_f(0.05, 3.0)) * sc[k]
+        y = x * draw(_f(1.2, 6.0))
+        if k == axis:
+            lo, hi = {"neg0": (-x, 0.0), "pos0": (0.0, y), "split0": (-x, y)}[side]
+            kind = side
+        else:
+            pool = ["pos", "neg", "pos-inf", "neg-inf"]
+            if d == 3 and not straddle_used:
+                pool.append("straddle")
+            kind = draw(st.sampled_from(pool))
+            straddle_used = straddle_used or kind == "straddle"
+            lo, hi = {"pos": (x, y), "neg": (-y, -x), "straddle": (-x, y), "pos-inf": (x, INF), "neg-inf": (-INF, -x)}[kind]
+        a.append(float(f"{lo:.6g}"))
+        b.append(float(f"{hi:.6g}"))
+        kinds.append(kind)
+    return {"d": d, "margins": margins, "copula": cop, "a": a, "b": b, "kinds": kinds, "axis": axis, "side": side}
+
+
+def body_zero(case):
+    """Rectangles (not containing the origin) one of whose coordinate intervals ends exactly at zero: (a_k, 0] lies on the
+    negative side, (0, b_k] on the positive side, and a straddling interval splits at zero into these two."""
+    d, k = case["d"], case["axis"]
+    model = build_copula_model({"margins": case["margins"], "copula": case["copula"]})
+    ref = RefCopulaModel(case["margins"], case["copula"])
+    a, b = list(case["a"]), list(case["b"])
+    detail = f"case={case}"
+    # absolute scale: the smallest marginal mass of the coordinates that stay away from zero
+    marg = []
+    for j in range(d):
+        if j == k or a[j] < 0 < b[j]:
+            continue
+        lo_, hi_ = (a[j], b[j]) if a[j] > 0 else (b[j], a[j])  # nearest-to-zero end point first
+        marg.append(abs(ref.U(j, lo_)) - (abs(ref.U(j, hi_)) if math.isfinite(hi_) else 0.0))
+    block = max(min(marg), 1e-300)
+    tol = lambda v: 1e-6 * abs(v) + 2e-8 * block + 1e-14  # noqa: E731
+    NEG = "C12/zero-end-point/negative-side-interval-ending-at-zero"
+    POS = "C12/zero-end-point/positive-side-interval-starting-at-zero"
+    out = []
+
+    def piece(lo, hi, key):
+        aa, bb = list(a), list(b)
+        aa[k], bb[k] = lo, hi
+        m = float(model.mass(list(aa), list(bb)))
+        r = ref.mass(aa, bb)
+        g = float(model._mass_nd(list(aa), list(bb)))
+        what = None
+        if not math.isfinite(m) or m < -tol(m):
+            what = f"negative or non-finite mass {m!r} (reference {r!r})"
+        elif abs(m - r) > tol(r) + 1e-6 * abs(m):
+            what = f"mass {m!r} differs from the reference {r!r}"
+        elif not abs(g - m) <= tol(m):
+            what = f"fast path {m!r} differs from the general formula {g!r}"
+        if what is not None:
+            out.append(Violation(key, f"mass({aa},{bb}): {what}; {detail}"))
+        return m, what is None
+
+    if case["side"] == "neg0":
+        piece(a[k], 0.0, NEG)
+    elif case["side"] == "pos0":
+        piece(0.0, b[k], POS)
+    else:
+        m_neg, ok1 = piece(a[k], 0.0, NEG)
+        m_pos, ok2 = piece(0.0, b[k], POS)
+        if ok1 and ok2:
+            m = float(model.mass(list(a), list(b)))
+            if abs(m_neg + m_pos - m) > tol(m) + 1e-6 * (abs(m_neg) + abs(m_pos)):
+                out.append(Violation("C12/zero-end-point/not-additive-over-the-split-at-zero",
+                                     f"axis {k}: {m_neg!r} + {m_pos!r} vs {m!r}; {detail}"))
+    return out
+
+
+def classify_zero(case):
+    labels = [case["side"], case["copula"]["type"], f"d={case['d']}", branch_of(case["margins"][case["axis"]])]
+    return labels, True
+
+
 SUBCHECKS = [
     SubCheck("rectangle-mass", body, classify,
              rule="copula model (all margin families, Clayton incl. eta end points / independent / dependent, d=2,3) x "
@@ -183,4 +271,11 @@ SUBCHECKS = [
                   "non-trivial = straddling or infinite coordinate, d=3, or proper index subset",
              strategy=strat_case, budget={"quick": 800, "thorough": 12000}, shards={"quick": 16, "thorough": 16},
              essential_labels=("straddle", "pos-inf", "d=3")),
+    SubCheck("end-points-at-zero", body_zero, classify_zero,
+             rule="as above, but one coordinate interval is (a,0] (negative side), (0,b] (positive side) or a straddling "
+                  "interval split at exactly zero; the other coordinates stay away from zero: mass finite and >= 0, = "
+                  "harness reference with one-sided limits of the tail integrals, fast path = general formula, the two "
+                  "pieces add up to the straddling rectangle",
+             strategy=strat_zero, budget={"quick": 320, "thorough": 4000}, shards={"quick": 16, "thorough": 16},
+             essential_labels=("neg0", "pos0", "split0")),
 ]
